@@ -515,3 +515,74 @@ def load_corpus(pid):
             if line:
                 out.append(json.loads(line))
     return out
+
+
+# ----------------------------------------------------------------------------- reach of the modelled functions
+
+class Reach:
+    """records which lines of the modelled Python functions are executed (sys.monitoring, Python 3.12)"""
+
+    TOOL = 4
+
+    def __init__(self):
+        import sys
+        pt, pp, Mod, Interval, PFE = _mods()
+        from peptacular import util
+        P = pp._ProFormaParser
+        funcs = [P.parse, P._parse_sequence_start, P._parse_sequence_middle, P._parse_sequence_end, P._parse_char,
+                 P._parse_modifications, P._parse_modification, P._parse_integer, P._add_internal_mod, P._add_interval,
+                 P._get_result, pp.parse, pp._is_unmodified, pp._serialize_annotation_start, pp._serialize_annotation_middle,
+                 pp._serialize_annotation_end, pp.MultiProFormaAnnotation.serialize, Mod.serialize, util.convert_type]
+        self.codes = {}
+        for f in funcs:
+            f = getattr(f, '__wrapped__', f)
+            co = f.__code__
+            lines = {ln for (_, _, ln) in co.co_lines() if ln is not None and ln != co.co_firstlineno}
+            self.codes[co] = (f.__qualname__, lines)
+        self.hit = {co: set() for co in self.codes}
+        self.mon = getattr(sys, 'monitoring', None)
+        self.active = False
+
+    def __enter__(self):
+        m = self.mon
+        if m is None:
+            return self
+        try:
+            m.use_tool_id(self.TOOL, 'verif-reach')
+        except ValueError:
+            return self
+        self.active = True
+
+        def on_line(code, line):
+            h = self.hit.get(code)
+            if h is not None:
+                h.add(line)
+            return None
+
+        m.register_callback(self.TOOL, m.events.LINE, on_line)
+        for co in self.codes:
+            m.set_local_events(self.TOOL, co, m.events.LINE)
+        return self
+
+    def __exit__(self, *a):
+        if self.active:
+            m = self.mon
+            for co in self.codes:
+                m.set_local_events(self.TOOL, co, 0)
+            m.register_callback(self.TOOL, m.events.LINE, None)
+            m.free_tool_id(self.TOOL)
+            self.active = False
+
+    def report(self):
+        if self.mon is None:
+            return {'available': False}
+        tot = hit = 0
+        missing = {}
+        for co, (name, lines) in self.codes.items():
+            tot += len(lines)
+            got = self.hit[co] & lines
+            hit += len(got)
+            miss = sorted(lines - got)
+            if miss:
+                missing[name] = miss
+        return {'available': True, 'lines_of_modelled_functions': tot, 'lines_executed': hit, 'not_executed': missing}
